@@ -253,7 +253,8 @@ def build_inputs(ctx):
         variants = [('', [])] if ctx.quick else [('-fcr', [('Economic Model', 1), ('Fixed Charge Rate', 0.07)]),
                                                  ('-bicycle', [('Economic Model', 3), ('Inflation Rate During Construction', 0.04)]),
                                                  ('-discount9', [('Discount Rate', 0.09), ('Well Drilling Cost Correlation', 3)])]
-        variants.append(('-injcost', [('Injection Well Drilling and Completion Capital Cost Adjustment Factor', 1.35), ('Economic Model', 1 if ctx.quick else 2)]))
+        if ctx.quick:
+            variants.append(('-bicycle', [('Economic Model', 3), ('Inflation Rate During Construction', 0.04)]))
         out += [(f'SUTRAExample1{s}', sutra + '\n' + runner.params_to_text(pairs)) for s, pairs in variants]
     ex1 = dict(configs.example_texts(ctx)).get('example1.txt', '')
     for i in range(ctx.n(2, 24)):
@@ -291,13 +292,19 @@ def runtime_label(items):
 
 
 class Collector:
-    """Coq terms of every line / table to check, de-duplicated; remembers which runs each came from."""
+    """Coq terms of the numeric lines / tables of one batch, grouped by run (a run's terms share its `let` series)."""
 
     def __init__(self):
-        self.terms = {}
+        self.groups = []      # [(run name, lets prefix, [(term, origin)])]
+        self.cur = []
 
     def add(self, term, origin):
-        self.terms.setdefault(term, []).append(origin)
+        self.cur.append((term, origin))
+
+    def close_run(self, name, R):
+        if self.cur:
+            self.groups.append((name, R.lets(), self.cur))
+        self.cur = []
 
 
 def node_index(spec):
@@ -505,6 +512,7 @@ def report_correspondence(ctx, spec, inputs, proofs_ok, batch=160):
     sigs = set()
     nterms = 0
     tsim = tcoq = 0.0
+    req = ['Model.Fmt', 'Model.Float', 'Model.Report']
     for lo in range(0, len(inputs), batch):     # bounded memory: snapshots of one batch at a time
         chunk = inputs[lo:lo + batch]
         col = Collector()
@@ -515,19 +523,40 @@ def report_correspondence(ctx, spec, inputs, proofs_ok, batch=160):
             R = check_run(ctx, spec, nodes, name, text, r, col, stats)
             prepost_clause(ctx, name, text, r, stats)
             if R is not None:
+                col.close_run(name, R)
                 executed |= R.executed | {('stmt', s) for s in R.executed_stmts}
                 per_line.update(R.executed)
                 sigs.add(tuple(sorted(R.executed)))
+                stats.update({f'figures:{k}': v for k, v in R.translation.items()})
         del res
-        terms = list(col.terms)
-        nterms += len(terms)
+        nterms += sum(len(g[2]) for g in col.groups)
         t0 = time.time()
-        bad = c09fmt.kernel_bools(ctx, f'report{lo}', ['Model.Fmt', 'Model.Report'], terms, shard=250) if terms else []
+        bad = sorted(c09fmt.kernel_groups(ctx, f'report{lo}', req, [(g[1], [x[0] for x in g[2]]) for g in col.groups]))
+        # second pass on what failed: is the line inside the float model at all, and does it hold with the harness's own figures?
+        second = []
+        for gi, ti in bad:
+            o = col.groups[gi][2][ti][1]
+            if o['kind'] == 'line':
+                second.append((col.groups[gi][1], [rep.line_defined_term(o['items']), rep.line_term(o['items'], o['actual'], plain=True)]))
+            else:
+                second.append((col.groups[gi][1], [rep.table_defined_term(o['rec']), rep.table_term(o['rec'], o['rows'], plain=True)]))
+        bad2 = c09fmt.kernel_groups(ctx, f'second{lo}', req, second) if second else set()
         tcoq += time.time() - t0
         texts = dict(chunk)
-        for i in bad[:8]:
-            o = col.terms[terms[i]][0]
+        reported = 0
+        for si, (gi, ti) in enumerate(bad):
+            o = col.groups[gi][2][ti][1]
             inp = {'part': 'report', 'name': o['name'], 'input': texts[o['name']]}
+            if (si, 1) not in bad2:      # the report shows the harness-computed figure
+                if (si, 0) in bad2:
+                    stats['figures:outside_float_model_fallback'] += 1
+                else:
+                    ctx.violate('corr', f'float-model:{o["label"]}', f'{o["name"]}: Model/Float.v computes another figure for "{o["label"]}" than numpy/Python '
+                                'did (the report agrees with numpy/Python)', inp=inp, observed=o.get('actual') or o.get('rows', [''])[:2])
+                continue
+            reported += 1
+            if reported > 8:
+                continue
             if o['kind'] == 'line':
                 ctx.violate('property', f'line:{o["label"]}', f'{o["name"]}: the line "{o["label"]}" does not show the specified quantity rounded to the displayed precision with the specified unit text',
                             inp={**inp, 'line': o['at']}, expected=rep.python_text(o['items']), observed=o['actual'])
@@ -549,6 +578,8 @@ def report_correspondence(ctx, spec, inputs, proofs_ok, batch=160):
             return 'dead code: its condition repeats an earlier branch of the same if/elif chain'
         if any('TOUGH2_SIMULATOR' in s and k == 'if' for k, s in conds):
             return 'needs the external TOUGH2 executable (not available offline)'
+        if any('cost_one_production_well.value != model.economics.cost_one_injection_well.value' in s and k == 'if' for k, s in conds):
+            return 'SUTRAEconomics never assigns the per-well costs: both keep their default, the condition is always false'
         return 'not reached'
     wr = lambda i: 'main' if i < 10000 else 'addons' if i < 20000 else 'sdac' if i < 30000 else 'sutra'
     unex = [(f'{wr(i)}:{n["line"]}', gen.label_of(n)[:40], why(c)) for i, (c, n) in sorted(nodes.items()) if i not in executed]
